@@ -1063,7 +1063,7 @@ impl Align {
 thread_local! {
     /// (friction-brake ramp-up time, friction force dropped to zero while the consist kept braking) after the
     /// latest executed step of the run on this thread - read when a panic ends the run
-    static BRAKE_CTX: std::cell::Cell<(f64, bool)> = const { std::cell::Cell::new((0.0, false)) };
+    static BRAKE_CTX: std::cell::Cell<(f64, bool, f64)> = const { std::cell::Cell::new((0.0, false, 0.0)) };
 }
 
 /// Did the friction brake go from applied to zero, within the last ramp-up time before step k, in a step in which
@@ -1092,12 +1092,25 @@ fn fric_dropped_while_braking(tr: &Traj, k: usize) -> bool {
     false
 }
 
+/// for how many seconds before (and including) step k the limit in force has had the value it has at step k
+fn limit_constant_for_s(tr: &Traj, k: usize) -> f64 {
+    let v = tr.states[k].speed_limit.value;
+    let mut t = 0.0;
+    let mut j = k;
+    while j > 0 && tr.states[j].speed_limit.value == v {
+        t += tr.states[j].dt.value;
+        j -= 1;
+    }
+    t
+}
+
 /// context for a panic that ends a speed-limited run (signature of finding C03-...-ramping-friction-brake)
 pub fn panic_sig() -> Sig {
-    let (ramp, dropped) = BRAKE_CTX.with(|c| c.get());
+    let (ramp, dropped, constant) = BRAKE_CTX.with(|c| c.get());
     let mut sg = Sig::new();
     sg.insert("fric_ramp_up_s".into(), ramp.into());
     sg.insert("fric_dropped_while_braking".into(), dropped.into());
+    sg.insert("limit_in_force_constant_for_s".into(), constant.into());
     sg
 }
 
@@ -1115,6 +1128,7 @@ fn check_limit_run(ctx: &mut Ctx, tr: &Traj, links: &[Link], route: &[usize], ca
             let mut sg = sig1("fric_ramp_up_s", tr.fric_ramp_up);
             sg.insert("fric_dropped_while_braking".into(), fric_dropped_while_braking(tr, k - 1).into());
             sg.insert("overspeed_rel".into(), ((v - b.speed_limit.value) / b.speed_limit.value.max(1e-9)).into());
+            sg.insert("limit_in_force_constant_for_s".into(), limit_constant_for_s(tr, k).into());
             // the friction brake came on from fully released in this step and is at what its ramp allows
             sg.insert("fric_ramp_limited_from_released".into(), (tr.fric.len() > k && tr.fric[k - 1] == 0.0 && tr.fric[k] > 0.0).into());
             ctx.violate_sig("C03", "limit_run", "speed <= limit in force", format!("step {k}: speed {v} > limit in force {} at offset {} (friction brake {} -> {} N, ramp-up time {} s)", b.speed_limit.value, b.offset.value, tr.fric.get(k - 1).copied().unwrap_or(f64::NAN), tr.fric.get(k).copied().unwrap_or(f64::NAN), tr.fric_ramp_up), sg);
@@ -1578,7 +1592,7 @@ impl Runner {
     fn new(mut sim: SpeedLimitTrainSim, case: &Case, dt: f64) -> Self {
         sim.state.dt = dt * uc::S;
         let tr = Traj { states: vec![sim.state], con: vec![sim.loco_con.state], loco_sums: vec![loco_sums(&sim.loco_con)], fric: vec![sim.fric_brake.state.force.value], fric_ramp_up: sim.fric_brake.ramp_up_time.value, auth_end: vec![0.0], delivered: vec![0] };
-        BRAKE_CTX.with(|c| c.set((tr.fric_ramp_up, false)));
+        BRAKE_CTX.with(|c| c.set((tr.fric_ramp_up, false, 0.0)));
         Runner { sim, tr, al: Align { i: 1, len: 0, interval: case.save_interval }, dt, k: 0, done: 0, ci: 0, ii: 0, arrived: false, terminated: false, budget: 60_000, rest_outside: 0, stuck: false, final_walk: false, handed_over: false }
     }
     fn align(&self, ctx: &mut Ctx, after: &str) {
@@ -1644,7 +1658,7 @@ impl Runner {
                 self.tr.con.push(self.sim.loco_con.state);
                 self.tr.loco_sums.push(loco_sums(&self.sim.loco_con));
                 self.tr.fric.push(self.sim.fric_brake.state.force.value);
-                BRAKE_CTX.with(|c| c.set((self.tr.fric_ramp_up, fric_dropped_while_braking(&self.tr, self.tr.states.len() - 1))));
+                BRAKE_CTX.with(|c| c.set((self.tr.fric_ramp_up, fric_dropped_while_braking(&self.tr, self.tr.states.len() - 1), limit_constant_for_s(&self.tr, self.tr.states.len() - 1))));
                 self.tr.auth_end.push(end);
                 self.tr.delivered.push(self.done);
                 ctx.sim_s += self.dt;
